@@ -375,7 +375,9 @@ class Encoder:
   """Encodes a Python object graph as a topologically ordered heap. Independent of daglish's
   traversal machinery: children are read directly from the Python objects."""
 
-  def __init__(self):
+  def __init__(self, with_defaults=True, atom_pred=None):
+    self.with_defaults = with_defaults
+    self.atom_pred = atom_pred      # extra values to encode by token instead of by identity
     self.objs = []
     self.ids = {}         # id(obj) -> index
     self.keep = []        # keep objects alive so id() stays unique
@@ -404,6 +406,8 @@ class Encoder:
   def val(self, x):
     if is_atom(x):
       return {'a': atom_token(x)}
+    if self.atom_pred is not None and id(x) not in self.ids and self.atom_pred(x):
+      return {'a': 'val:' + safe_repr(x)}
     if id(x) in self.ids:
       return {'r': self.ids[id(x)]}
     if id(x) in self.onstack:
@@ -420,7 +424,7 @@ class Encoder:
       # default objects of the parameters (identity matters: a default may be shared)
       import inspect as _inspect
       dfl = []
-      for i, prm in enumerate(x.__signature_info__.parameters.values()):
+      for i, prm in enumerate(x.__signature_info__.parameters.values() if self.with_defaults else ()):
         if prm.default is not prm.empty and prm.kind not in (prm.VAR_POSITIONAL, prm.VAR_KEYWORD):
           pe = ['i', i] if prm.kind == prm.POSITIONAL_ONLY else ['a', prm.name]
           dfl.append([pe, self.val(prm.default)])
@@ -531,8 +535,8 @@ def sig_of(cfg):
   return out
 
 
-def encode(root):
-  e = Encoder()
+def encode(root, **kw):
+  e = Encoder(**kw)
   rv = e.val(root)
   return {'objs': e.objs, 'root': rv}, e
 
